@@ -35,6 +35,9 @@ def build_one(cfg, profile):
     if feats:
         cmd += ["--features", feats]
     env = dict(ENV, HX_REPO=REPO)
+    if REPO != "/repo":
+        # testing against a scratch copy of the repository: cargo "paths" override
+        cmd += ["--config", 'paths=["%s"]' % REPO]
     rc, out = sh(cmd, cwd=HARNESS, env=env, timeout=1200)
     return cfg, profile, rc, out
 
